@@ -7,7 +7,7 @@
                                                   update_from_market routing; a full account
                                                   snapshot is applied item by item
     and the abstract "register" specification it refines to.
-    Timestamps are integer milliseconds, decimals integers at scale 1e-8.
+    Timestamps are exact integer nanoseconds since the Unix epoch (the model only compares them), decimals integers at scale 1e-8.
     Definitions only: this file still runs when a proof breaks. *)
 From BV Require Export Model.Orders.
 Local Open Scope Z_scope.
